@@ -552,7 +552,7 @@ static void sw_script(uint64_t idx, bool verbose) {
       segs.push_back({S, n, K_RAW, 0, false, 0});
       cov_misc[alias_class(sform ? "write(string)" : "write(ptr,size)", S, n, cap)]++;
       cov_misc[std::string("alias:source-range:") + SHAPE_NAME[shape]]++;
-    } else if (pick < 75 && S >= 16) {  // typed value passed by reference into the writer's own buffer
+    } else if (pick < 75 && S >= 24) {  // typed value passed by reference into the writer's own buffer
       int t = (int)g.below(NSELF);
       size_t W = SELF[t].W, cap = w.str().capacity();
       bool positional = pick >= 74;
@@ -588,7 +588,7 @@ static void sw_script(uint64_t idx, bool verbose) {
         ops.push_back({OP_PPUT_SELF, t, off, k});
         opname = grow ? "StringWriter:pput<T>:reference-into-own-buffer:growing" : "StringWriter:pput<T>:reference-into-own-buffer";
         g_op = "StringWriter::pput<T>(own bytes)";
-        C->crumb_n("pput_self", idx, oi, t, off, k, S, cap);
+        C->crumb_n("pput_self", idx, oi, t, off, k, S);
         SELF[t].pput(w, off, k);
         if (off + W > S) sh.resize(off + W, 0);
         if (off > S) {
@@ -776,6 +776,19 @@ static void bw_script(uint64_t idx, bool verbose) {
       if (n > room) n = room;
       std::string d = g.bytes(n);
       bool sform = g.chance(1, 2);
+      if (!sform && n && cur >= n && g.chance(1, 3)) {  // source = earlier, disjoint bytes of the target buffer itself
+        size_t k = g.below(cur - n + 1);
+        d.assign((const char*)&sh[k], n);
+        ops.push_back({OP_WRITE_SELF_PTR, 0, k, n});
+        opname = "BufferWriter:write(ptr,size):source-inside-own-buffer";
+        g_op = "BufferWriter::write(own bytes)";
+        C->crumb_n("bw_write_self", idx, oi, k, n, cur, N);
+        w.write(buf.get() + k, n);
+        memcpy(&sh[cur], d.data(), n);
+        segs.push_back({cur, n, K_RAW, 0, false, 0});
+        cur += n;
+        misc("alias:BW:write(ptr,size):disjoint-own-bytes");
+      } else {
       ops.push_back({sform ? OP_WRITE_STR : OP_WRITE_PTR, 0, n, 0});
       opname = sform ? "BufferWriter:write(string)" : "BufferWriter:write(ptr,size)";
       g_op = "BufferWriter::write";
@@ -786,6 +799,7 @@ static void bw_script(uint64_t idx, bool verbose) {
       segs.push_back({cur, n, K_RAW, 0, false, 0});
       cur += n;
       misc(sform ? "w:BW:write(string)" : "w:BW:write(ptr,size)");
+      }
     } else {  // pwrite
       size_t n = g.chance(1, 8) ? 0 : g.below(24);
       if (n > N) n = N;
